@@ -185,6 +185,11 @@ func C08(c *hx.Ctx) {
 	for k, g := range cfgs {
 		jobs = append(jobs, job{g, histCase{Hist: []string{"WMaxRuns", "F", "WMaxRuns", "C"}, Expect: []string{"ok", "ok", "ok", "ok"}}, c.Seed + 8100 + int64(k)})
 	}
+	// end-of-chunk margin (margin.go): a maximally expensive match placed where 11..40 bytes of the
+	// chunk are left; the window of filler lengths is wider than the one that failed originally
+	for nF := 73525; nF <= 73545; nF += c.Pick(2, 1) {
+		jobs = append(jobs, job{W2Cfg{3, 0, 2, 8 << 20, 4096, 0}, histCase{Hist: []string{"WmR", "F", "WmT", "F", "WmF", "F", "C"}, Expect: []string{"ok", "ok", "ok", "ok", "ok", "ok", "ok"}}, int64(nF)})
+	}
 	c.Logf("%d small histories, %d big histories, %d jobs", len(hs), len(hb), len(jobs))
 	var mu sync.Mutex
 	var tr bytes.Buffer
